@@ -548,6 +548,9 @@ func (s *MsgSpec) Sign(m *mail.Msg) error {
 			return m.SignWithKeypair(k.RSAKey384, k.RSACert384, i384)
 		}
 		return m.SignWithKeypair(k.ECKey384, k.ECCert384, i384)
+	case "rsa-sameserial":
+		// the intermediate is always given: it has the same serial number as the leaf it issued
+		return m.SignWithKeypair(k.RSAKeySame, k.RSACertSame, k.InterSameCert)
 	case "ed25519-unsupported":
 		// accepted by SignWithKeypair, but the signer supports RSA and ECDSA only: rendering fails before the first byte
 		return m.SignWithKeypair(k.EdKey, k.EdCert, nil)
@@ -584,6 +587,8 @@ func (k *KeySet) TLSCert(kind string, withInt bool) *tls.Certificate {
 		c = &tls.Certificate{Certificate: [][]byte{k.ECCert384.Raw, k.Inter384Cert.Raw}, PrivateKey: k.ECKey384, Leaf: k.ECCert384}
 	case kind == "ecdsa-ca384":
 		c = &tls.Certificate{Certificate: [][]byte{k.ECCert384.Raw}, PrivateKey: k.ECKey384, Leaf: k.ECCert384}
+	case kind == "rsa-sameserial":
+		c = &tls.Certificate{Certificate: [][]byte{k.RSACertSame.Raw, k.InterSameCert.Raw}, PrivateKey: k.RSAKeySame, Leaf: k.RSACertSame}
 	}
 	k.tlsCerts[id] = c
 	return c
@@ -626,6 +631,11 @@ type KeySet struct {
 	RSACert384   *x509.Certificate
 	ECKey384     *ecdsa.PrivateKey
 	ECCert384    *x509.Certificate
+	// a CA and a leaf that carry the same serial number (serial numbers are unique per issuer only)
+	InterSameCert *x509.Certificate
+	InterSameKey  *ecdsa.PrivateKey
+	RSAKeySame    *rsa.PrivateKey
+	RSACertSame   *x509.Certificate
 
 	tlsMu    sync.Mutex
 	tlsCerts map[string]*tls.Certificate
@@ -685,6 +695,10 @@ func Keys() *KeySet {
 		k.RSACert384 = mk("rsa leaf via p384 intermediate", false, &k.RSAKey384.PublicKey, k.Inter384Key, k.Inter384Cert, 9)
 		k.ECKey384, _ = ecdsa.GenerateKey(elliptic.P256(), rand.Reader)
 		k.ECCert384 = mk("ec leaf via p384 intermediate", false, &k.ECKey384.PublicKey, k.Inter384Key, k.Inter384Cert, 10)
+		k.InterSameKey, _ = ecdsa.GenerateKey(elliptic.P256(), rand.Reader)
+		k.InterSameCert = mk("verif intermediate, serial 1", true, &k.InterSameKey.PublicKey, k.RootKey, k.RootCert, 50)
+		k.RSAKeySame, _ = rsa.GenerateKey(rand.Reader, 2048)
+		k.RSACertSame = mk("rsa leaf, serial 1 of its issuer", false, &k.RSAKeySame.PublicKey, k.InterSameKey, k.InterSameCert, 50)
 		keys = k
 	})
 	return keys
